@@ -156,6 +156,31 @@ METHODS[(SStr, "format")] = _format_kw
 
 
 # ---------------------------------------------------------------------------------------------------------------------
+# dict.get(key, default) with a symbolic str/int key on a dict whose keys are concrete and whose values (and the default)
+# are scalars of one type: the result is the exact case chain  If(key == k1, v1, If(key == k2, v2, ... default))  — no
+# path fork (the generic model forks once per key).
+
+_prev_dget = METHODS.get((SDict, "get"))
+
+
+def _dget_merged(it, d, k, default=NONE):
+    k = it.resolve(k)
+    if isinstance(k, (SStr, SInt)) and k.concrete() is None and d.items and getattr(d, "default_factory", None) is None:
+        keys = [kk for kk, _ in d.items]
+        vals = [it.resolve(v) for _, v in d.items] + [it.resolve(default)]
+        if all(type(kk) is type(k) and kk.concrete() is not None for kk in keys) and \
+                all(type(v) is type(vals[0]) and isinstance(v, (SStr, SInt, SBool)) for v in vals):
+            r = vals[-1].t
+            for kk, v in reversed(list(zip(keys, vals[:-1]))):
+                r = z3.If(k.t == kk.t, v.t, r)
+            return type(vals[0])(r)
+    return _prev_dget(it, d, k, default)
+
+
+METHODS[(SDict, "get")] = _dget_merged
+
+
+# ---------------------------------------------------------------------------------------------------------------------
 # terminal size
 
 
